@@ -306,6 +306,7 @@ struct SchemaSys {
   std::string mode; std::string pid;  // property id prefix for signatures
   Alpha al;
   int finalOnlyRenamesAt{ -1 };       // rename mode: at this depth only renaming operations are enabled
+  bool requery_parent{ false };       // incr mode: state battery on the parent state of the same object before the last operation (stale caches)
 
   int seeds() const { return al.seedSchemas * 2; }
 
@@ -766,7 +767,7 @@ int main(int argc, char** argv) {
   Options opt = parse_args(argc, argv);
   const double t0 = now_s();
   Result res; res.harness = "h_schema"; res.mode = opt.mode; res.tier = opt.tier;
-  SchemaSys sys; sys.mode = opt.mode;
+  SchemaSys sys; sys.mode = opt.mode; sys.requery_parent = opt.mode == "incr" && opt.num("requery", 0) != 0;   // off: the battery fills caches that are part of the exact key (cachedForms), so canon-on-replay would trip
   if (opt.mode == "incr") sys.pid = "C07"; else if (opt.mode == "ident") sys.pid = "C09"; else if (opt.mode == "json") sys.pid = "C10"; else if (opt.mode == "rename") sys.pid = "C08";
   else { fprintf(stderr, "unknown mode\n"); return 2; }
   res.property = sys.pid;
